@@ -215,7 +215,13 @@ impl Matcher for MultiExecMatcher {
         if self.exec_in_parent_dir {
             let mut command = self.command.borrow_mut();
             if let Some(mut command) = command.take() {
-                command.current_dir(Path::new(".").join(dir));
+                // ("." only for the empty path: a prefix would make a
+                // directory path of PATH_MAX - 2 bytes too long.)
+                command.current_dir(if dir.as_os_str().is_empty() {
+                    Path::new(".")
+                } else {
+                    dir
+                });
                 self.run_command(&mut command, matcher_io);
             }
         }
